@@ -1557,8 +1557,10 @@ class Node:
             if message_id.startswith(f"{conn.ident}:"):
                 self._app_waiting_answer.pop(message_id, None)
         peer = self._find_connection_peer(conn)
-        if peer and (peer.connection is None or peer.connection is conn):
-            # unset so that a new connection may be made later
+        if peer and peer.connection is conn:
+            # unset so that a new connection may be made later; a connection
+            # that never became the peer's own (e.g. a refused CER naming the
+            # peer) leaves the peer's record, and its reconnect wait, alone
             peer.connection = None
             peer.last_disconnect = int(time.time())
             # only set if not yet set
